@@ -2,7 +2,7 @@
 """Regenerate MANIFEST.json from nbsa/manifest_data.py (single source of the per-property texts)."""
 import json, os, sys
 sys.path.insert(0, os.path.dirname(os.path.dirname(os.path.abspath(__file__))))
-from nbsa.manifest_data import CLAIMED, NOT_APPLICABLE, NOTES
+from nbsa.manifest_data import CLAIMED, NOT_APPLICABLE, NOTES, MORE
 
 PY = '/venv/bin/python'
 checks = []
@@ -15,7 +15,7 @@ for pid in sorted(CLAIMED):
         'evidence_file': '/verif/evidence/%s.json' % pid,
         'replay_cmd_template': '%s -m nbsa.check --replay {path}' % PY,
         'engine': 'nbsa',
-        'level_claimed': {'category': 'other', 'text': d['text'], 'design_ref': 'DESIGN.md section 3, %s' % pid},
+        'level_claimed': {'category': 'other', 'text': d['text'] + ((' Further rules: ' + MORE[pid]) if pid in MORE else ''), 'design_ref': 'DESIGN.md section 3, %s' % pid},
         'level_note': d['note'],
         'technique': d['technique'],
     })
